@@ -50,6 +50,13 @@ Lemma run_length : forall ops set s, length (run set s ops) = length (filter (fu
 Proof. induction ops as [|[c|tl] ops IH]; intros; cbn; auto. Qed.
 
 (* the plain consequence the operator relies on *)
+(* nothing but the configured limits is set on any transport of any history *)
+Lemma run_no_other_limits : forall ops s, Forall (fun t => t_other t = 0) (run set_config s ops).
+Proof.
+  induction ops as [|[c|tl] ops IH]; intros s; cbn [run]; [constructor|apply IH|].
+  constructor; [reflexivity | apply IH].
+Qed.
+
 Lemma set_then_new c tls s : uses (new_transport (set_config s c) tls) c.
 Proof. repeat split; reflexivity. Qed.
 
